@@ -7,7 +7,10 @@ type EventFn[T any] func(data T)
 type Unsubscribe func()
 
 type subscription[T any] struct {
-	fn EventFn[T]
+	fn      EventFn[T]
+	pending []T  // Fired values that have not been handed to fn yet, oldest first.
+	running bool // True while a goroutine is delivering the pending values.
+	active  bool // False once unsubscribed.
 }
 
 // An Event must not be copied after first use. Share it through a pointer.
@@ -23,8 +26,9 @@ func New[T any]() *Event[T] {
 // Adds a subscriber to the event.
 // The returned function removes exactly this subscriber, no matter how many other
 // subscribers were added or removed in the meantime. Calling it more than once is harmless.
+// Values that were fired but not yet delivered to the subscriber are dropped.
 func (e *Event[T]) Subscribe(fn EventFn[T]) Unsubscribe {
-	sub := &subscription[T]{fn: fn}
+	sub := &subscription[T]{fn: fn, active: true}
 
 	e.mu.Lock()
 	e.subscribers = append(e.subscribers, sub)
@@ -33,6 +37,9 @@ func (e *Event[T]) Subscribe(fn EventFn[T]) Unsubscribe {
 	return func() {
 		e.mu.Lock()
 		defer e.mu.Unlock()
+
+		sub.active = false
+		sub.pending = nil
 
 		for i, s := range e.subscribers {
 			if s == sub {
@@ -46,11 +53,34 @@ func (e *Event[T]) Subscribe(fn EventFn[T]) Unsubscribe {
 // Fires the event, notifying all subscribers with the provided data.
 // NOTE: The subscribers are notified in separate goroutines,
 // so be aware of potential race conditions.
+// Each subscriber receives the fired values one at a time and in the order they were fired,
+// so the last value a subscriber sees is the most recent one.
 func (e *Event[T]) Fire(data T) {
 	e.mu.Lock()
 	defer e.mu.Unlock()
 
 	for _, sub := range e.subscribers {
-		go sub.fn(data)
+		sub.pending = append(sub.pending, data)
+		if !sub.running {
+			sub.running = true
+			go e.deliver(sub)
+		}
+	}
+}
+
+// Hands the pending values of one subscriber to it, oldest first, until none are left.
+func (e *Event[T]) deliver(sub *subscription[T]) {
+	for {
+		e.mu.Lock()
+		if !sub.active || len(sub.pending) == 0 {
+			sub.running = false
+			e.mu.Unlock()
+			return
+		}
+		data := sub.pending[0]
+		sub.pending = sub.pending[1:]
+		e.mu.Unlock()
+
+		sub.fn(data)
 	}
 }
